@@ -141,6 +141,9 @@ def check_sigma(prog: Program, res: Result) -> None:
             xv = b.get("xv")
             gc = _grid_call_of(prog, fi, norm(xv), enclosing_stmt(c)) if xv is not None else None
             stride = astq.bind_args(mgv, gc).get("output_stride") if gc is not None else None
+            if isinstance(sg, ast.Name):      # a named spread: grid_sigma = sigma * output_stride
+                rd_sg = astq.reaching_def(fi.node, sg.id, enclosing_stmt(c))
+                sg = rd_sg.value if rd_sg is not None else sg
             ok = isinstance(sg, ast.BinOp) and isinstance(sg.op, ast.Mult) and stride is not None and norm(stride) in (norm(sg.left), norm(sg.right))
             other = None
             if ok:
@@ -537,7 +540,18 @@ def check_target_grid_size(prog: Program, res: Result) -> None:
             a = astq.bind_args(prog.func(q), c).get("img_hw")
             e = astq.expand_at(fi.node, a, enclosing_stmt(c)) if a is not None else None
             txt = norm(e) if e is not None else ""
-            ok = ".shape" in txt and "self." not in txt.split(".shape")[0].replace("self.transform", "")
+            def _is_shape(x):
+                """x.shape[...] of some tensor expression, or a pair / tuple(...) built from such"""
+                if isinstance(x, ast.Subscript):
+                    return _is_shape(x.value) if not (isinstance(x.value, ast.Attribute) and x.value.attr == "shape") else True
+                if isinstance(x, ast.Attribute) and x.attr == "shape":
+                    return True
+                if isinstance(x, (ast.Tuple, ast.List)):
+                    return bool(x.elts) and all(_is_shape(t_) for t_ in x.elts)
+                if isinstance(x, ast.Call) and norm(x.func) in ("tuple", "list") and len(x.args) == 1:
+                    return _is_shape(x.args[0])
+                return False
+            ok = e is not None and _is_shape(e)
             res.ob(R, ok, fi.qualname, f"{q.split(':')[1]}: img_hw is the shape of the returned image",
                    f"`{short(c, 50)}` draws its targets on a grid of size `{short(e, 40) if e is not None else '?'}`, which is not the shape of the image in the sample: the target grid "
                    "and the (padded) network input disagree", f"{fi.module.relpath}:{c.lineno}")
